@@ -50,7 +50,8 @@ B(c) == Num(IF c THEN 16 ELSE 0)
 Arith(op, a, b, pin) ==      \* a, b scaled integers
     CASE op = "+" -> Guard(a + b)
       [] op = "-" -> Guard(a - b)
-      [] op = "*" -> LET x == a * b  ax == IF x < 0 THEN 0 - x ELSE x IN
+      [] op = "*" -> IF a > 46000 \/ a < -46000 \/ b > 46000 \/ b < -46000 THEN Unjudged ELSE
+                     LET x == a * b  ax == IF x < 0 THEN 0 - x ELSE x IN
                      IF ax % 16 = 0 THEN Guard(IF x < 0 THEN 0 - (ax \div 16) ELSE ax \div 16) ELSE Unjudged
       [] op = "/" -> IF b = 0 THEN None
                      ELSE LET x == a * 16  ax == IF x < 0 THEN 0 - x ELSE x  ab == IF b < 0 THEN 0 - b ELSE b
@@ -65,7 +66,7 @@ Arith(op, a, b, pin) ==      \* a, b scaled integers
                      ELSE LET base == IF a < 0 THEN 0 - (a \div 16) ELSE a \div 16                 \* magnitudes (a, b are multiples of 16)
                               e == (IF b < 0 THEN 0 - b ELSE b) \div 16
                               neg == a < 0 /\ (e % 2 = 1 \/ (pin /\ b < 0)) IN
-                          IF e > 12 \/ base > 64 THEN Unjudged
+                          IF ~(base <= 1 \/ (base <= 2 /\ e <= 20) \/ (base <= 10 /\ e <= 6) \/ (base <= 64 /\ e <= 3)) THEN Unjudged
                           ELSE LET p == PowInt(base, e) IN
                                IF b >= 0 THEN Guard(IF neg THEN 0 - 16 * p ELSE 16 * p)
                                ELSE IF p <= 16 /\ 16 % p = 0 THEN Num(IF neg THEN 0 - (16 \div p) ELSE 16 \div p) ELSE Unjudged   \* reciprocal when exact
@@ -113,4 +114,11 @@ Results(l, pin) == IF Len(l) = 1 THEN Operand(l[1], pin)
 Admissible(l) == {Final(r) : r \in Results(l, FALSE)}
 \* the values under the recorded defect "negative base ^ negative exponent is always negative" (known finding, pinned by the test-suite)
 AdmissiblePinned(l) == {Final(r) : r \in Results(l, TRUE)}
+\* decimal text of n / 16 for multiples of a quarter: integer, or integer.25 / .5 / .75
+RECURSIVE DecDigits(_)
+DecDigits(x) == IF x < 10 THEN <<48 + x>> ELSE DecDigits(x \div 10) \o <<48 + (x % 10)>>
+QuarterText(n) == LET a == IF n < 0 THEN 0 - n ELSE n
+                      ip == a \div 16  fr == a % 16
+                  IN (IF n < 0 THEN <<45>> ELSE <<>>) \o DecDigits(ip) \o
+                     (CASE fr = 0 -> <<>> [] fr = 4 -> <<46, 50, 53>> [] fr = 8 -> <<46, 53>> [] fr = 12 -> <<46, 55, 53>>)
 =============================================================================
